@@ -252,6 +252,20 @@ PROPS = {
         'level_note': 'Trusted: rustc front end + MIR, the extractor.',
         'technique': 'sibling arm-by-arm agreement + argument-provenance rules over resolved MIR (rustc_private driver)',
     },
+    'C07': {
+        'module': 'c07',
+        'explanation': 'A narrow structural fragment: the two spellings of a member call (Invoke vs GetProperty+Call, and the super forms) '
+                       'are cross-checked as siblings -- same receiver kinds special-cased, same tables consulted, same fallback to the '
+                       'class, same error kind and message; both places where a method table is merged (ObjClass::new and the Inherit '
+                       'handler) copy the inherited methods before own methods are added, and the compiler emits Inherit before any '
+                       'method definition.',
+        'assumptions': COMMON_ASSUME,
+        'not_decided': ['dispatch results', 'what Self / super denote at run time', 'constructor protocol', 'static-method Self'],
+        'level_text': 'Decides K1-K2 only; explicitly a fragment of the property.',
+        'design_ref': 'DESIGN.md section 1, C07',
+        'level_note': 'Trusted: rustc front end + MIR, the extractor.',
+        'technique': 'sibling cross-check of look-up profiles + ordering rules over resolved MIR (rustc_private driver)',
+    },
 }
 
 NOT_APPLICABLE = {
@@ -260,7 +274,7 @@ NOT_APPLICABLE = {
     'C19': 'a statement about all doubles and the platform formatter/parser (f64 Display / str::parse); nothing in the shape of the '
            'code bounds it -- needs execution or a numerical proof, outside static analysis of this repository',
 }
-PENDING = ['C02', 'C03', 'C04', 'C05', 'C06', 'C07', 'C08', 'C09', 'C10', 'C11', 'C12', 'C13', 'C14', 'C15', 'C16', 'C17']
+PENDING = []
 for _p in PENDING:
     if _p not in PROPS:
         NOT_APPLICABLE[_p] = 'not claimed at this commit: static rules designed in DESIGN.md are not implemented yet'
